@@ -369,3 +369,58 @@ Proof.
   split; [vm_compute; reflexivity|].
   vm_compute. repeat split; discriminate.
 Qed.
+
+(* ------------------------------------------------------------------ *)
+(* child-pays-for-parent: which fee rule the publisher uses             *)
+
+Lemma west_fee_mono : forall r1 r2 w, 0 <= r1 <= r2 -> r2 <= RMAX -> 0 <= w < WMAX ->
+  0 <= west_fee r1 w <= west_fee r2 w.
+Proof.
+  intros r1 r2 w Hr Hm Hw. unfold west_fee, RMAX, WMAX in *.
+  assert (H1 : 0 <= r1 * w < 2 ^ 63) by nia.
+  assert (H2 : 0 <= r2 * w < 2 ^ 63) by nia.
+  rewrite !wrap64_id by lia.
+  split; [apply Z.quot_pos; lia|]. apply Z.quot_le_mono; nia.
+Qed.
+
+(* the publisher's fee (prepareSweepTx: estimator.fee()) for inputs with ANY
+   unconfirmed parents is the fee of the offered rate on the child's weight
+   alone - hence within the cap the fee function guarantees for the rate *)
+Lemma c18_cpfp_publisher_fee : forall rate maxr w ps,
+  0 <= rate <= maxr -> maxr <= RMAX -> 0 <= w < WMAX ->
+  prepare_fee rate w ps = fee_for_weight rate w /\
+  0 <= prepare_fee rate w ps <= fee_for_weight maxr w.
+Proof.
+  intros rate maxr w ps Hr Hm Hw. unfold prepare_fee. split; [reflexivity|].
+  change (fee_for_weight maxr w) with (west_fee maxr w). apply west_fee_mono; auto.
+Qed.
+
+(* feeWithParent (walletsweep path) never exceeds maxFeeRate * childWeight when a
+   max fee rate is configured, and never goes below the child's own fee *)
+Lemma c18_fee_with_parent_clamped : forall rate maxr w pf pw,
+  maxr <> 0 ->
+  west_fee_with_parent rate maxr w pf pw <= west_fee maxr w /\
+  (west_fee rate w <= west_fee maxr w -> west_fee rate w <= west_fee_with_parent rate maxr w pf pw).
+Proof.
+  intros rate maxr w pf pw Hm. unfold west_fee_with_parent.
+  assert (E : (maxr =? 0) = false) by (apply Z.eqb_neq; auto). rewrite E.
+  set (cf := west_fee rate w). set (f0 := west_fee rate (w + pw) - pf). set (mf := west_fee maxr w).
+  destruct (f0 <? cf) eqn:E1; destruct (mf <? _) eqn:E2;
+    try apply Z.ltb_lt in E1; try apply Z.ltb_ge in E1;
+    try apply Z.ltb_lt in E2; try apply Z.ltb_ge in E2; lia.
+Qed.
+
+(* ... but WITHOUT the clamp (maxFeeRate = 0, the way prepareSweepTx builds its
+   estimator) feeWithParent exceeds the cap for a rate within the cap: using it
+   in the publisher breaks "fee rate <= MaxFeeRate" (seeded change C18-5).
+   Offered rate = MaxFeeRate = 2500 sat/kw, child 700 wu, parent 1200 wu paying
+   300 sat (250 sat/kw): 4450 sat = 6357 sat/kw instead of 1750 sat. *)
+Lemma c18_fee_with_parent_unclamped_refuted :
+  exists rate maxr w p,
+    0 <= rate <= maxr /\
+    let '(pf, pw) := add_parents rate [Some p] [] 0 0 in
+    prepare_fee rate w [Some p] <= west_fee maxr w /\
+    west_fee maxr w < west_fee_with_parent rate 0 w pf pw.
+Proof.
+  exists 2500, 2500, 700, (mkPar 1 300 1200). vm_compute. repeat split; discriminate.
+Qed.
